@@ -44,6 +44,7 @@ def main(argv):
     inconclusive = []
     n_unsat = 0
     n_vac_ok = 0
+    n_vac_unknown = 0
     # stale replay files of this property from earlier runs
     rdir = os.path.join(core.ROOT, "replays")
     if os.path.isdir(rdir):
@@ -54,6 +55,7 @@ def main(argv):
                 except OSError:
                     pass
     reproduced_kinds = {}
+    known_more = 0
     tried_kinds = {}
     for r in records:
         st = r["status"]
@@ -61,8 +63,10 @@ def main(argv):
             n_unsat += 1
             if r.get("vacuity", "sat") == "sat":
                 n_vac_ok += 1
-            elif r.get("vacuity") not in (None, "sat"):
-                inconclusive.append((r, f"vacuity twin {r.get('vacuity')}"))
+            else:
+                # twin undecided within its cap: the obligation is discharged but is not counted as
+                # a non-trivial case (an unsatisfiable twin is reported as 'vacuous' and fails the check)
+                n_vac_unknown += 1
             continue
         if st == "vacuous":
             inconclusive.append((r, "preconditions unsatisfiable (vacuous harness)"))
@@ -73,7 +77,13 @@ def main(argv):
                 inconclusive.append((r, "sat without replay: " + str(r.get("replay_error", r.get("witness")))[:300]))
                 continue
             kk = (r.get("job"), rp["kind"])
-            if reproduced_kinds.get(kk, 0) >= 1 and tried_kinds.get(kk, 0) >= 3 and not core.match_known(known, prop, r["id"]):
+            km = core.match_known(known, prop, r["id"])
+            if km is not None and any(kk_ is km for _, kk_ in known_hits):
+                # a further witness of an already reproduced listed finding (same obligation pattern)
+                r["status"] = "known"
+                known_more = known_more + 1
+                continue
+            if reproduced_kinds.get(kk, 0) >= 1 and tried_kinds.get(kk, 0) >= 3 and km is None:
                 # further witnesses of a harness that already has a reproduced violation: not replayed again
                 r["status"] = "sat-unreplayed"
                 continue
@@ -136,6 +146,7 @@ def main(argv):
         "obligations": obligations,
         "discharged": n_unsat,
         "known_findings_reproduced": len(known_hits),
+        "vacuity_twin_undecided": n_vac_unknown,
         "inconclusive": len(inconclusive),
         "paths_explored": int(tot("paths")),
         "branch_queries": int(tot("branch_queries")),
